@@ -65,6 +65,22 @@ def gen_requests(ctx):
         fn = rng.choice(["erode", "dilate", "open", "close"])
         reqs.append({"id": "focus-%s#%d" % (fn, k), "fn": fn, "args": [img, R.A("bool", sh, [int(v) for v in se.reshape(-1)])],
                      "kwargs": {}, "layouts": ["C" if rng.random() < 0.7 else rng.choice(LAYOUTS), "C"], "klayouts": {}})
+    # filters with weights much longer than the image, every border mode (the border function is evaluated far outside)
+    for k in range(nfocus):
+        nd = rng.choice([1, 2])
+        sh = [rng.randint(1, 4) for _ in range(nd)]
+        n = int(np.prod(sh))
+        dt = rng.choice(["float64", "float32", "int32", "uint8"])
+        img = R.A(dt, sh, [float(rng.randint(0, 9)) if dt.startswith("float") else rng.randint(0, 9) for _ in range(n)])
+        wsh = [rng.choice([1, 9, 13, 17, 21]) for _ in range(nd)]
+        wn = int(np.prod(wsh))
+        w = R.A(dt, wsh, [float(rng.randint(0, 2)) if dt.startswith("float") else rng.randint(0, 2) for _ in range(wn)])
+        w["vals"][0] = 1
+        w["vals"][-1] = 1
+        fn = rng.choice(["convolve", "convolve", "median_filter", "mean_filter", "rank_filter"])
+        args = [img, w] + ([rng.randrange(max(1, sum(1 for v in w["vals"] if v)))] if fn == "rank_filter" else [])
+        reqs.append({"id": "focus-%s#%d" % (fn, k), "fn": fn, "args": args, "kwargs": {"mode": rng.choice(R.MODES[:5])},
+                     "layouts": [rng.choice(LAYOUTS), "C"] + (["C"] if fn == "rank_filter" else []), "klayouts": {}})
     return reqs
 
 
